@@ -200,6 +200,12 @@ func c20Run(x *vrt.X, sc c20Scenario, hashes map[string]uint64, info *prom.Confi
 				switch sc.Disc {
 				case "keep":
 					e.UpdateTargets(all(names...))
+				case "keep-dup":
+					// the same rounds again, t1 listed twice (one endpoint reported by two groups of the job)
+					dup := append([]string{"t1"}, names...)
+					e.UpdateTargets(all(dup...))
+					vrt.Yield("between-updates")
+					e.UpdateTargets(all(dup...))
 				case "remove":
 					e.UpdateTargets(all(names[1:]...))
 					mark(o.Removed, "t1")
@@ -458,7 +464,7 @@ func init() {
 			for _, w := range []int{1, 2} {
 				for _, f1 := range []int{0, 1, 2, 99} {
 					for _, gets := range []int{1, 2, 3} {
-						for _, disc := range []string{"none", "keep", "reload-keep", "remove", "readd", "reload-drop"} {
+						for _, disc := range []string{"none", "keep", "keep-dup", "reload-keep", "remove", "readd", "reload-drop"} {
 							f2s := []int{0}
 							if nt == 2 {
 								f2s = []int{0, 1}
